@@ -1,7 +1,10 @@
+mod c01;
 mod c02;
+mod c03;
 mod gen;
 mod hx;
 mod oracle;
+mod probe;
 
 fn main() {
     let args: Vec<String> = std::env::args().collect();
@@ -16,8 +19,14 @@ fn main() {
         eprintln!("MACHINERY-ERROR oracle self-test failed: {}", e);
         std::process::exit(2);
     }
+    if args[1] == "probe" {
+        probe::run(&args[2]);
+        return;
+    }
     let rep = match args[1].as_str() {
+        "C01" => c01::run(),
         "C02" => c02::run(),
+        "C03" => c03::run(),
         p => {
             eprintln!("explore: no E1 check for {}", p);
             std::process::exit(2);
